@@ -284,7 +284,7 @@ def model_run(cps, inputs, name):
 
 
 def model_expect(case, mv):
-    X, U, V, VC, VP, (T, t0), (Xi, Xc, Zc) = mv
+    X, U, V, VC, VP, (T, t0), (Xi, Xc, Zc) = mv[:7]
     exp = {}
     if case["method"]["kind"] != "SS":
         exp["X"] = [v for col in X for v in col]
